@@ -441,6 +441,8 @@ def cq_out(o, sched_ops, op_req):
         return "OProgress %s %s %s %s" % (cq_nat(o["o"]), cq_N(o.get("req", 0)), cq_Z(o.get("tag", -1)), cq_nat(o.get("n", 0)))
     if e == "sprogret":
         return "OSProgRet %s %s" % (cq_N(o.get("req", 0)), cq_bool(o.get("r") == "ok"))
+    if e == "setmode":
+        return "OSetMode %s" % cq_bool(o.get("r") == "ok")
     if e == "done":
         return "ODone"
     if e == "closeret":
@@ -510,6 +512,10 @@ def build_case(sched, res):
                         others.append("TransportEnd")
                     elif k in ("stall", "unstall"):
                         pass    # the router end's reading is not part of the model
+                    elif k == "setmode":
+                        m = l.get("mode", "")
+                        others.append("SetMode %s" % ("MRDefault" if m == "" else
+                                                      "(MRSet %s)" % MODES[m] if m in ("kill", "killnowait", "skip") else "MRInvalid"))
             for o in os_:
                 if o["e"] == "invctx":
                     others.append("HandlerReturn %s HCanceled" % cq_N(o.get("req", 0)))
@@ -761,10 +767,19 @@ def gen_c16(rng, sid):
         if info["kind"] == "call" and info["label"].get("ctx") == "deadline":
             info["ctxdl"] = info["start"] + info["label"]["deadline_ms"]
 
+    # the application reconfigures the cancel mode between its calls: the CANCEL of a later
+    # cancellation carries the LAST accepted setting ("" = killnowait, an invalid one changes nothing)
+    setmodes = ["", "kill", "skip", "killnowait", "bogus"]
+    if rng.random() < 0.6:
+        for _ in range(rng.randint(1, 3)):
+            b.burst([{"k": "setmode", "mode": rng.choice(setmodes)}])
+
     # phase 2: answer / time out / cancel, in a random order
     steps = 0
     while b.pending and steps < 30:
         steps += 1
+        if rng.random() < 0.08:
+            b.burst([{"k": "setmode", "mode": rng.choice(setmodes)}])
         o = rng.choice(sorted(b.pending))
         info = b.pending[o]
         k = info["kind"]
@@ -1072,6 +1087,15 @@ class Trace:
                 self.end_t = o["t"]
                 break
 
+    def mode_at(self, pos):
+        """The cancel mode configured when log entry `pos` was written: the last
+        accepted SetCallCancelMode before it ("" = killnowait), else the initial one."""
+        m = self.mode
+        for o in self.obs[:pos]:
+            if o["e"] == "setmode" and o.get("r") == "ok":
+                m = o.get("mode") or "killnowait"
+        return m
+
     def msgs_for(self, req, kinds=None):
         return [x for x in self.sent if x[4] == req and req != 0 and (kinds is None or x[3]["t"] in kinds)]
 
@@ -1129,7 +1153,7 @@ def monitor_c16(sched, res):
         if req0:
             if kind in ("call", "callprog"):
                 ct0 = cancel_t.get(o)
-                mine0 = [c for c in cancels_sent.get(req0, []) if ct0 is not None and c[1]["t"] >= ct0 and c[1].get("mode") == T.mode]
+                mine0 = [c for c in cancels_sent.get(req0, []) if ct0 is not None and c[1]["t"] >= ct0 and c[1].get("mode") == T.mode_at(c[0])]
                 dl0 = mine0[0][1]["t"] + T.rt if mine0 else None
             else:
                 dl0 = lab["t"] + T.rt
@@ -1207,11 +1231,12 @@ def monitor_c16(sched, res):
             ct = cancel_t[o]
             if r["t"] > ct or (r["t"] == ct and rr in ("ctx_canceled", "ctx_deadline", "timeout")):
                 mine_c = [c for c in cancels_sent.get(req, []) if c[1]["t"] >= ct]
-                own = [c for c in mine_c if c[1].get("mode") == T.mode]
+                own = [c for c in mine_c if c[1].get("mode") == T.mode_at(c[0])]
                 if not mine_c:
                     v("cancelled call sent no CANCEL", "op %d: context cancelled at %d, no CANCEL for request %d" % (o, ct, req))
                 elif not own:
-                    v("CANCEL with the wrong mode", "op %d: CANCEL mode %r, configured %r" % (o, mine_c[0][1].get("mode"), T.mode))
+                    v("CANCEL with the wrong mode", "op %d: CANCEL mode %r, configured %r (last accepted SetCallCancelMode)" % (
+                        o, mine_c[0][1].get("mode"), T.mode_at(mine_c[0][0])))
                 if rr not in ("ctx_canceled", "ctx_deadline", "timeout", "notconn") and r["t"] > ct:
                     v("cancelled call returned a reply", "op %d: context cancelled at %d, Call returned %s at %d" % (o, ct, rr, r["t"]))
         # progress: in order, before the return
@@ -1224,6 +1249,13 @@ def monitor_c16(sched, res):
             it = iter(want)
             if not all(any(g == w for w in it) for g in got):
                 v("progressive results out of order", "op %d: handler saw %s, router sent %s" % (o, got, want))
+
+    # configuration calls: "" and the three modes are accepted, anything else refused
+    for ob in T.obs:
+        if ob["e"] == "setmode":
+            want = "ok" if ob.get("mode", "") in ("", "kill", "killnowait", "skip") else "error"
+            if ob.get("r") != want:
+                v("SetCallCancelMode answered wrongly", "SetCallCancelMode(%r) returned %s" % (ob.get("mode", ""), ob.get("r")))
 
     # events: one at a time, in arrival order
     depth = 0
@@ -1386,6 +1418,12 @@ def monitor_c17(sched, res):
                 bad.append(("C17 cancelled call did not return %s one response timeout after its CANCEL" % probe["r"],
                             "op %d: CANCEL at %d, response timeout %d: must return %s at exactly %d; observed %s at %s" % (
                                 probe["o"], probe["t"] - T.rt, T.rt, probe["r"], probe["t"], got[0], got[1])))
+        elif kind == "close_at":
+            got = [ob for ob in T.obs if ob["e"] == "closeret" and ob.get("o") == probe["o"]]
+            if not got or got[0]["t"] != probe["t"] or got[0].get("r") != "ok":
+                bad.append(("C17 Close did not return when its bound (2 x ResponseTimeout, or the router's earlier GOODBYE / end) was reached",
+                            "Close() must return at virtual time %d; observed %s" % (
+                                probe["t"], ("return at %d (%s)" % (got[0]["t"], got[0].get("r"))) if got else "no return before the end of the script")))
         elif kind == "ret_in":
             rets = T.rets.get(probe["o"], [])
             got = rets[0][1]["r"] if rets else None
@@ -1787,6 +1825,46 @@ def gen_c17(rng, tier, keys):
             h.hostile([{"k": "end"}])
             b.ended = True
             scripts.append(h.finish(probes=False))
+    # F10: the silent router at Close: Close() returns exactly 2 x ResponseTimeout after it was
+    # called unless the router says GOODBYE / the transport ends earlier -- whether the GOODBYE was
+    # taken and left unanswered, not even taken, answered late, or the transport closed late
+    def closing(name, family="close-silent", stall=False):
+        h = Hostile("close:" + name, family)
+        b = h.b
+        if stall:
+            h.hostile([{"k": "stall"}])
+        b.nop += 1
+        h.hostile([{"k": "close", "o": b.nop}])
+        b.closed = True
+        return h, b, b.nop, b.now
+    h, b, co, t0 = closing("goodbye-taken-unanswered")
+    h.hostile([], adv=2 * RT)
+    h.hostile([], adv=3000)
+    b.s["probes"].append({"k": "close_at", "o": co, "t": t0 + 2 * RT})
+    scripts.append(h.finish(probes=False, close=False))
+    h, b, co, t0 = closing("goodbye-not-taken", family="stall", stall=True)
+    h.hostile([], adv=2 * RT)
+    h.hostile([], adv=3000)
+    b.s["probes"].append({"k": "close_at", "o": co, "t": t0 + 2 * RT})
+    scripts.append(h.finish(probes=False, close=False))
+    for what in ("goodbye", "abort", "end"):
+        lab = lambda: {"k": "end"} if what == "end" else b.msg(what, uri="wamp.close.system_shutdown")
+        for d_ms in (1000, 2 * RT - 1):
+            h, b, co, t0 = closing("%s-late-%d" % (what, d_ms))
+            h.hostile([lab()], adv=d_ms)
+            h.hostile([], adv=2 * RT)
+            b.s["probes"].append({"k": "close_at", "o": co, "t": t0 + d_ms})
+            scripts.append(h.finish(probes=False, close=False))
+        for prearm in (True, False):
+            h, b, co, t0 = closing("%s-at-the-deadline-%s" % (what, "pre" if prearm else "post"))
+            h.hostile([lab()], adv=2 * RT, prearm=prearm)
+            h.hostile([], adv=1000)
+            b.s["probes"].append({"k": "close_at", "o": co, "t": t0 + 2 * RT})
+            scripts.append(h.finish(probes=False, close=False))
+        h, b, co, t0 = closing("%s-after-the-deadline" % what)
+        h.hostile([lab()], adv=2 * RT + 1000)
+        b.s["probes"].append({"k": "close_at", "o": co, "t": t0 + 2 * RT})
+        scripts.append(h.finish(probes=False, close=False))
     # F6: directed
     h = Hostile("dir:ppt-result-unsupported-then-close", "directed", ppt=False)
     h.hostile([h.b.msg("result", req={"op": h.call_o}, details={"ppt_scheme": V("str", s="x_a")}, tag=5)])
